@@ -255,6 +255,24 @@ def setup_shard():
     G.catalogue()
 
 
+def _refused_labels(c, attempts, st):
+    """Label updates that the library refuses (digits only / non-ASCII) must leave the names as they were; each attempt is
+    (running index, label).  Returns True if one was ACCEPTED (then the user did assign that label and uniqueness is not judged)."""
+    els = {i: e for e, i in c.generate_element_identifiers(running=True).items()}
+    accepted = False
+    for i, lab in attempts:
+        e = els.get(int(i))
+        if e is None:
+            continue
+        try:
+            e.set_label(lab)
+            accepted = True
+            st["refusable_label_accepted"] = st.get("refusable_label_accepted", 0) + 1
+        except Exception:
+            st["label_updates_refused"] = st.get("label_updates_refused", 0) + 1
+    return accepted
+
+
 def run_case(case):
     from pyimpspec import parse_cdc
 
@@ -264,6 +282,8 @@ def run_case(case):
     if case["kind"] == "cdc":
         c = parse_cdc(case["cdc"])
         t = {"t": "S", "c": []}
+        dup_r = _refused_labels(c, case.get("refused") or [], st)
+        case = dict(case, dup=case.get("dup", False) or dup_r)
         # element count from the real circuit itself for replays
         n = len(c.generate_element_identifiers(running=True))
         check_circuit(c, {"t": "S", "c": [{"t": "E", "sym": "R", "label": "", "p": {}, "subs": {}}] * n}, st, viol, {"cdc": case["cdc"]}, dup_labels=case.get("dup", False), do_fit=True)
@@ -301,7 +321,16 @@ def run_case(case):
         except Exception as e:
             viol.append({"key": f"C16/build-raised:{type(e).__name__}", "msg": monitors.tb_tail(e), "witness": {"tree": G.brief(G.nf(t))}})
             continue
-        w = {"cdc": text, "replay_case": {"kind": "cdc", "cdc": text, "dup": dup}}
+        attempts = []
+        if not dup and rng.random() < 0.4:
+            # a refused label update (digits that collide with a generated identifier, padded digits, non-ASCII) on 1-2 elements
+            n_el = len(c.generate_element_identifiers(running=True))
+            for _ in range(int(rng.integers(1, 3))):
+                attempts.append([int(rng.integers(0, n_el)), str(rng.choice(["1", "2", "0", "11", " 2 ", "\t1", "é"]))])
+            dup = _refused_labels(c, attempts, st)
+        w = {"cdc": text, "replay_case": {"kind": "cdc", "cdc": text, "dup": dup, "refused": attempts}}
+        if attempts:
+            w["refused_label_updates"] = attempts
         has_container = any(e.get("subs") for e in G.iter_elements(t))
         check_circuit(c, t, st, viol, w, dup_labels=dup, do_fit=(evals % 4 == 0 and not has_container))
         evals += 1
